@@ -98,3 +98,29 @@ package main
 //@   name manifestCache
 //@   in ~/cmd/regsync
 //@   requires keyed-by-the-announced-digest: k == string($keyDigest) && $keyOf == caller.origMan
+
+// filterList, deny direction ("tags excluded by the filters are left exactly as they were"): no tag
+// of the result matches - as a whole - any expression of the deny list, and no empty name is
+// returned. $reMatch(pattern, s) is regexp matching as an uninterpreted function; the pattern is
+// the anchored group the code compiles. Assumed at entry (not provable from call sites without
+// allocation reasoning): the deny list and the tag list do not share a backing array.
+//@ func filterList(ad, in) (out, err)
+//@   prop C18
+//@   entry-assume $arr(ad.Deny) != $arr(in) && $arr(ad.Deny) >= 0 && $arr(in) >= 0
+//@   let deny = ad.Deny
+//@   loop 0 (filter)
+//@     invariant deny-list-untouched: ad.Deny == deny && forall(dd, 0, len(deny), deny[dd] == old(deny[dd]))
+//@   loop 1 (i)
+//@     invariant deny-list-untouched: ad.Deny == deny && forall(dd, 0, len(deny), deny[dd] == old(deny[dd]))
+//@   loop 2 (filter)
+//@     invariant deny-list-untouched: ad.Deny == deny && -1 <= $idx__3 && $idx__3 < len(deny) && forall(dd, 0, len(deny), deny[dd] == old(deny[dd]))
+//@     invariant denied-so-far-blanked: forall(k, 0, len(result), forall(dd, 0, $idx__3 + 1, result[k] == "" || !$reMatch("^(?:" + deny[dd] + ")$", result[k])))
+//@   loop 3 (i)
+//@     invariant deny-list-untouched: ad.Deny == deny && 0 <= $idx__3 && $idx__3 < len(deny) && filter__2 == deny[$idx__3] && exp__2 != nil && $pat(exp__2) == "^(?:" + filter__2 + ")$" && forall(dd, 0, len(deny), deny[dd] == old(deny[dd]))
+//@     invariant denied-so-far-blanked: forall(k, 0, len(result), forall(dd, 0, $idx__3, result[k] == "" || !$reMatch("^(?:" + deny[dd] + ")$", result[k])))
+//@     invariant current-filter-applied: -1 <= $idx__4 && $idx__4 < len(result) && forall(k, 0, $idx__4 + 1, result[k] == "" || !$reMatch("^(?:" + filter__2 + ")$", result[k]))
+//@   loop 4 (i)
+//@     invariant deny-list-untouched: ad.Deny == deny && forall(dd, 0, len(deny), deny[dd] == old(deny[dd]))
+//@     invariant all-denied-blanked: forall(k, 0, len(result), forall(dd, 0, len(deny), result[k] == "" || !$reMatch("^(?:" + deny[dd] + ")$", result[k])))
+//@     invariant compressed-clean: forall(j, 0, len(compressed), compressed[j] != "" && forall(dd, 0, len(deny), !$reMatch("^(?:" + deny[dd] + ")$", compressed[j])))
+//@   ensures denied-tags-never-selected: err == nil ==> forall(j, 0, len(out), out[j] != "" && forall(dd, 0, len(old(ad.Deny)), !$reMatch("^(?:" + old(ad.Deny[dd]) + ")$", out[j])))
